@@ -376,7 +376,10 @@ class BinaryExpression(TypedExpression):
             return chained
 
         left_str = self.left.rebuild(indent=indent, inline=True)
-        right_str = self.right.rebuild(indent=indent, inline=True)
+        if not self.right_gap_lines:
+            # Only the same-line layout uses this rendering; rendering the operand here and
+            # again below made nested chains cost 2^depth rebuild calls.
+            right_str = self.right.rebuild(indent=indent, inline=True)
 
         operator_newline = self.operator_gap_lines > 0
         operator_str = self.operator.rebuild(indent=indent)
